@@ -1,10 +1,13 @@
 #!/usr/bin/env python3
-"""tools/seedrun.py <mutant-dir> [--checks C01,C02,...] [--tier quick] [--seed N] [--no-demo]
+"""tools/seedrun.py <mutant-dir> [--wt <scratch worktree>] [--checks C01,C02,...] [--tier quick] [--seed N] [--no-demo]
 
-Applies <mutant-dir>/patch.diff to /repo, confirms that the repository's own suite still
-passes and that the demonstration fails with the change (and passes without), runs the
-listed checks (default: all) against the changed tree, then ALWAYS restores /repo.
-Prints one line per check: CAUGHT (exit 1 + VIOLATION line), missed (exit 0), or inconclusive.
+Applies <mutant-dir>/patch.diff to /repo (or, with --wt, to a scratch git worktree of /repo that
+is first moved to /repo's HEAD; the checks are then built against it through VERIF_REPO, so
+several seeded changes can be evaluated at the same time without touching /repo), confirms that
+the repository's own suite still passes and that the demonstration fails with the change (and
+passes without), runs the listed checks (default: all) against the changed tree, then ALWAYS
+restores the tree. Prints a JSON summary: per check CAUGHT (exit 1 + VIOLATION line), missed
+(exit 0), or inconclusive.
 """
 import json, os, re, subprocess, sys, shutil, concurrent.futures
 
@@ -40,7 +43,8 @@ def main():
     a = sys.argv[1:]
     mdir = os.path.abspath(a[0])
     checks = sorted(json.load(open(os.path.join(ROOT, "checks.json"))))
-    tier, seed, do_demo = "quick", "1", True
+    global REPO
+    tier, seed, do_demo, wt = "quick", "1", True, None
     i = 1
     while i < len(a):
         if a[i] == "--checks":
@@ -49,13 +53,20 @@ def main():
             tier = a[i + 1]; i += 2
         elif a[i] == "--seed":
             seed = a[i + 1]; i += 2
+        elif a[i] == "--wt":
+            wt = a[i + 1]; i += 2
         elif a[i] == "--no-demo":
             do_demo = False; i += 1
         else:
             i += 1
-    rc, out = sh(["git", "status", "--short"], cwd=REPO)
+    if wt:
+        head = sh(["git", "rev-parse", "HEAD"], cwd=REPO)[1].strip()
+        REPO = os.path.abspath(wt)
+        sh(["git", "checkout", "--", "."], cwd=REPO)
+        sh(["git", "checkout", "-q", "--detach", head], cwd=REPO)
+    rc, out = sh(["git", "status", "--short", "--untracked-files=no"], cwd=REPO)
     if out.strip():
-        print("REFUSING: /repo is not clean:\n" + out)
+        print("REFUSING: %s is not clean:\n%s" % (REPO, out))
         return 2
     result = {"mutant": mdir, "tier": tier, "seed": seed}
     try:
@@ -68,7 +79,8 @@ def main():
             return 2
         rc, out = sh(["go", "build", "./..."], cwd=REPO)
         result["builds"] = rc == 0
-        rc, out = sh(["go", "test", "-vet=off", "-count=1", "./..."], cwd=REPO)
+        pk = [l for l in sh(["go", "list", "./..."], cwd=REPO)[1].split() if "/out" not in l and l.startswith("github.com/")]
+        rc, out = sh(["go", "test", "-vet=off", "-count=1"] + pk, cwd=REPO)
         result["suite_passes"] = rc == 0
         if rc != 0:
             result["suite_output"] = out[-1500:]
@@ -81,6 +93,8 @@ def main():
 
         def one(pid):
             e = dict(ENV, VERIF_SEED=seed)
+            if wt:
+                e["VERIF_REPO"] = REPO
             rc, out = sh([os.path.join(ROOT, "check"), pid, tier], cwd=ROOT, env=e, timeout=7200)
             viol = [l for l in out.splitlines() if l.startswith("VIOLATION")]
             clause = [l for l in out.splitlines() if l.startswith("violated")]
@@ -97,9 +111,10 @@ def main():
             p = os.path.join(REPO, f)
             if os.path.exists(p):
                 os.remove(p)
-        # replays written while the mutant was applied are not findings of the real tree
-        sh(["git", "clean", "-fdq", "replays"], cwd=ROOT)
-        sh(["git", "checkout", "--", "evidence"], cwd=ROOT)
+        if not wt:
+            # replays / evidence written while the change was applied to /repo are not findings of the real tree
+            sh(["git", "clean", "-fdq", "replays"], cwd=ROOT)
+            sh(["git", "checkout", "--", "evidence"], cwd=ROOT)
     print(json.dumps(result, indent=1, ensure_ascii=False))
     return 0
 
